@@ -248,6 +248,7 @@ func c20Case(c *core.C) {
 	chownR(pre)
 	trial := 0
 	// runTrial: fresh copy of the pre-state, store under the tracer with the plan, then retrieve in fresh processes.
+	retryCount := 0
 	runTrial := func(p ptrace.Plan, label string) (*ptrace.Result, bool) {
 		trial++
 		work := filepath.Join(base, fmt.Sprintf("work-%d", trial))
@@ -306,7 +307,15 @@ func c20Case(c *core.C) {
 		}
 		// recovery: a later store of the same identifier (a shorter document) must succeed and be retrievable complete
 		if res.Killed && !sc.noClobber {
-			st := runChild(true, "storeone", "-dir", wstore, "-docfile", filepath.Join(base, "later.pb"))
+			// alternately a shorter document and a RETRY of the very document whose store was killed (what a
+			// caller does after a crash): leftovers of the killed store must not end up in the entry
+			retryCount++
+			laterFile, laterDoc, laterWhat := "later.pb", laterDoc, "a shorter document"
+			if retryCount%2 == 0 {
+				laterFile, laterDoc, laterWhat = "new.pb", newDoc, "the same document again (a retry)"
+				c.Cover("outcome:retry-of-the-killed-store")
+			}
+			st := runChild(true, "storeone", "-dir", wstore, "-docfile", filepath.Join(base, laterFile))
 			c.Evals(1)
 			switch st.kind {
 			case "OK":
@@ -320,7 +329,7 @@ func c20Case(c *core.C) {
 					if g2.kind == "DOC" {
 						what = fmt.Sprintf("a different document (%d nodes, name %q): %s", len(g2.doc.GetNodeList().GetNodes()), g2.doc.GetMetadata().GetName(), firstDiffDeep(laterDoc, g2.doc))
 					}
-					c.Violatef("store-after-crash-not-retrievable:"+sc.name, det, "scenario %s, crash at %s, then a successful Store of a shorter document under the same identifier: Retrieve returned %s", sc.name, label, what)
+					c.Violatef("store-after-crash-not-retrievable:"+sc.name, det, "scenario %s, crash at %s, then a successful Store of %s under the same identifier: Retrieve returned %s", sc.name, label, laterWhat, what)
 					return res, false
 				}
 				c.Cover("outcome:later-store-complete")
